@@ -546,6 +546,53 @@ def tri_program(rng, name, nstmts):
     return Program(decls, orient, init + stmts, name, quiet=len(init))
 
 
+def rejected_statements(prog, variant):
+    """syntax-only compiler pass over a shard: indices of the statements the C++ type checker rejects (diagnostics that
+    point into the generated file: `error` and `required from here` lines), None if diagnostics cannot be attributed"""
+    full = compile_errors(prog, variant)
+    if "error" not in full: return []
+    src = prog.source().split("\n")
+    ls = sorted(set(int(x) for x in re.findall(r"_[0-9a-f]{12}\.cpp:(\d+):\d+:\s+(?:error|required from here)", full)))
+    ks = sorted(set(int(m.group(1)) for l in ls if l - 1 < len(src) for m in [re.search(r"P\(\); // (\d+)$", src[l - 1])] if m))
+    return ks or None
+
+
+def proxy_shard(ck, rng, name, vt, info):
+    """one shard of the orientation-complete proxy layer (tools/c01_gen.py: ProxyLayer): one statement per stratum
+    (proxy, matrix form, plain | trans).  A syntax-only compiler pass filters the members the type checker rejects
+    (recorded); a rejected stratum is redrawn as its core member, which must compile - otherwise the stratum is
+    reported with the concrete statement."""
+    pl = G.ProxyLayer(rng); init = pl.init_statements(); strata = pl.strata()
+    items = [[sx, pl.draw(sx), False] for sx in strata]
+    mk = lambda its: Program(pl.decls, pl.orient, init + pl.settle(init, [it[1] for it in its]), name, quiet=len(init))
+    cx = lambda st: G.Cxx(random.Random(7)).stmt(st)
+    for rnd in range(4):
+        prog = mk(items); ks = rejected_statements(prog, vt)
+        if ks is None:
+            ck.violation("compile:unknown", {"program": prog.to_json()}, "proxy shard does not compile and no statement could be blamed", no_input=True); return None
+        if not ks: break
+        keep = []
+        for k, it in enumerate(items):
+            if k + prog.quiet not in ks: keep.append(it); continue
+            if not it[2]:
+                if len(info["rejected_at_compile_time"]) < 60: info["rejected_at_compile_time"].append({"stratum": "%s(%s%s)" % (it[0][0], "trans " if it[0][2] else "", it[0][1]), "statement": cx(it[1])})
+                info["rejected"] += 1
+                keep.append([it[0], pl.draw(it[0], core=True), True])
+            else:
+                # the core member of a stratum is rejected: a concrete construct that has to compile does not
+                one = Program(pl.decls, pl.orient, init + [it[1]], "core", quiet=len(init))
+                bad, det = fails(one, vt)
+                key = "proxy-layer:does-not-compile:%s(%s%s)" % (it[0][0], "trans " if it[0][2] else "", it[0][1])
+                rp = dict(one.to_json()); rp.update({"variant": vt, "statement": cx(it[1]), "result": det})
+                ck.violation(key, rp, "core member of proxy-layer stratum %s is rejected by the compiler: `%s` %s" % (key.split(":")[-1], cx(it[1]), str(det.get("detail", ""))[-300:]))
+        items = keep
+    prog = mk(items)
+    for it in items:
+        k = "%s(%s%s)" % (it[0][0], "trans " if it[0][2] else "", it[0][1]); info["strata"][k] = info["strata"].get(k, 0) + 1
+    for k, v in pl.stats.items(): info["classes"][k] = info["classes"].get(k, 0) + v
+    return prog
+
+
 def main():
     ck = Check(PID)
     ck.trusted = DEFAULT_TRUSTED + ["Python reference evaluator of the documented meaning (tools/c01_gen.py: vden/mden/exec_stmt) used as spec monitor, cross-checked against the extracted Coq interpreter on every program",
@@ -603,12 +650,25 @@ def main():
         prog = tri_program(random.Random(ck.rng.getrandbits(48)), "trishard%d" % i, 90 if thorough else 70)
         shards.append((prog, ["long", "double", "double_cblas"]))
         stats["triangular_prod statements"] = stats.get("triangular_prod statements", 0) + len(prog.stmts) - prog.quiet
+    # orientation-complete proxy layer: every proxy x every matrix form x plain / trans(form), nested in element-wise
+    # expressions, off-diagonal / non-square / empty / full ranges (tools/c01_gen.py: ProxyLayer)
+    pinfo = {"strata": {}, "classes": {}, "rejected": 0, "rejected_at_compile_time": [], "excluded_strata": sorted(set("%s(%s): %s" % (k[0], k[1], v) for k, v in G.EXCLUDED_STRATA.items()))}
+    for i in range(6 if thorough else 2):
+        vt = "long" if i % 2 == 0 else "double"
+        # (own random stream derived from the seed: the other streams draw exactly what they drew before this layer existed)
+        prog = proxy_shard(ck, random.Random(ck.seed * 7919 + 1009 * i + 17), "proxyshard%d" % i, vt, pinfo)
+        if prog is not None:
+            shards.append((prog, [vt])); stats["proxy-layer statements"] = stats.get("proxy-layer statements", 0) + len(prog.stmts) - prog.quiet
+    want = set("%s(%s%s)" % (p, "trans " if tr else "", f) for (p, f, tr) in G.ProxyLayer(random.Random(0)).strata())
+    ck.oblige("proxy layer: every stratum (proxy x matrix form x orientation) outside the documented exclusions is compiled and compared (%d strata)" % len(want),
+              want <= set(pinfo["strata"]), "missing: %s" % sorted(want - set(pinfo["strata"]))[:8])
+    ck.notes["proxy_layer"] = pinfo
     # compile all variants of all shards in parallel (4 jobs) before the sequential comparison
     from concurrent.futures import ThreadPoolExecutor
     with ThreadPoolExecutor(max_workers=4) as ex:
         list(ex.map(lambda pv: run_cxx(pv[0], pv[1]), [(p, v) for p, vs in shards for v in vs]))
     for prog, vs in shards:
-        nev += check_program(ck, model, prog, vs, "main-stream" if not prog.quiet else ("long-inner-stream" if prog.name.startswith("long") else "triangular-stream"))
+        nev += check_program(ck, model, prog, vs, "main-stream" if not prog.quiet else ("long-inner-stream" if prog.name.startswith("long") else "proxy-layer" if prog.name.startswith("proxy") else "triangular-stream"))
         samples.append([G.Cxx(random.Random(7)).stmt(s) for s in prog.stmts[-3:]])
     # sparse stream: NOT ENABLED.  Probes show that on the unchanged tree `compressed_matrix = dense matrix`
     # (sparse.hpp:243) and `dense = compressed_vector + dense` do not compile and compressed containers have no
